@@ -48,7 +48,39 @@ func script(seed int64, idx int) {
 	faults := 0
 	nSteps := 6 + rng.Intn(10)
 	for st := 0; st < nSteps; st++ {
-		switch x := rng.Intn(23); {
+		switch x := rng.Intn(26); {
+		case x == 23: // the reported chain height goes DOWN (reorg to a shorter tip, or a lagging backend behind a load balancer); then a message on the new branch
+			drop := int32(3 + rng.Intn(12))
+			cl := []uint8{2, 5, 10}[rng.Intn(3)]
+			w.Sim.Mutate("advance", func(s *alphsim.Sim) { s.SetHeight(s.Height + drop + int32(rng.Intn(5))) })
+			wait(2)
+			w.Sim.Mutate("height-regression", func(s *alphsim.Sim) {
+				nh := s.Height - drop
+				for _, b := range s.Blocks {
+					if b.Height > nh && b.Main {
+						s.SetMain(b.Hash, false)
+						for tx, evs := range w.TxOf {
+							if len(evs) > 0 && evs[0].Block == b {
+								s.TxBlock[tx] = ""
+							}
+						}
+					}
+				}
+				s.SetHeight(nh)
+			})
+			w.Tr(fmt.Sprintf("the reported height drops by %d (blocks above the new tip are orphaned)", drop))
+			vlib.CCount("height_regressions", 1)
+			vlib.CCount("reorgs", 1)
+			wait(2)
+			var blk *alphsim.Block
+			w.Sim.Mutate("emit-after-regression", func(s *alphsim.Sim) {
+				blk = w.NewBlock(s, false)
+				w.EmitTx(s, blk, "transfer", cl, false)
+			})
+			w.Tr(fmt.Sprintf("emit transfer cl=%d in block %s at height %d (new branch)", cl, blk.Hash[:8], blk.Height))
+			wait(2)
+			w.Sim.Mutate("advance", func(s *alphsim.Sim) { s.SetHeight(s.Height + 1) })
+			w.Tr("advance height by 1")
 		case x == 22: // re-observation exactly at the depth boundary: one block short, then deep enough
 			cl := []uint8{1, 2, 3, 5, 10}[rng.Intn(5)]
 			var blk *alphsim.Block
@@ -245,6 +277,38 @@ func script(seed int64, idx int) {
 			k := []int32{0, 1, 2, 5, 10, 210, 300}[rng.Intn(7)]
 			w.Sim.Mutate("advance", func(s *alphsim.Sim) { s.SetHeight(s.Height + k) })
 			w.Tr(fmt.Sprintf("advance height by %d", k))
+		case (x == 24 || x == 25) && len(w.Txs) > 0: // a transaction is re-mined on the main chain where its script fails and emits nothing; its only message is in the orphaned block
+			tx := w.Txs[len(w.Txs)-1-rng.Intn(minInt(3, len(w.Txs)))]
+			var old *alphsim.Block
+			w.Sim.WithLock(func() {
+				if evs := w.TxOf[tx]; len(evs) > 0 && evs[0].Block.Main {
+					old = evs[0].Block
+				}
+			})
+			if old == nil {
+				break
+			}
+			w.Sim.Mutate("reorg-remine-without-events", func(s *alphsim.Sim) {
+				s.SetMain(old.Hash, false)
+				nb := s.AddBlock(fmt.Sprintf("%064x", rng.Uint64()), old.Height, old.TsMs+7, true)
+				w.Blocks = append(w.Blocks, nb)
+				for t, evs := range w.TxOf {
+					if len(evs) > 0 && evs[0].Block == old {
+						s.TxBlock[t] = ""
+					}
+				}
+				s.TxBlock[tx] = nb.Hash // confirmed in the new block, but no event was emitted there
+				s.SetHeight(s.Height + 300)
+			})
+			w.Tr(fmt.Sprintf("reorg: block %s orphaned; tx %s re-mined in a main-chain block where it emits nothing; height +300; reobserve it", old.Hash[:8], tx[:8]))
+			vlib.CCount("reorgs", 1)
+			vlib.CCount("remined_without_events", 1)
+			wait(2)
+			if !w.H.Reobserve(tx, 25*time.Second) {
+				vlib.CFinding("reobserve:request-not-handled-within-watchdog", map[string]interface{}{"script": desc, "trace": w.Trace})
+				return
+			}
+			vlib.CCount("reobservation_requests", 1)
 		case x < 14 && len(w.Blocks) > 0: // reorg: orphan a recent block, re-include (some of) its transactions
 			b := w.Blocks[len(w.Blocks)-1-rng.Intn(minInt(3, len(w.Blocks)))]
 			reinclude := rng.Intn(3) != 0
